@@ -489,7 +489,30 @@ def execute(plan):
         def check_rows(X, B, seq, ex, what, coarse=False):
             tB = max(tauB, COARSE[0]) if coarse else tauB
             tX = max(tauX, COARSE[1] * rngX_) if coarse else tauX
-            return _check_rows(X, B, seq, ex, what, tB, tX)
+            try:
+                return _check_rows(X, B, seq, ex, what, tB, tX)
+            except Violation as v_def:
+                # At default solver accuracy a mismatch can be the solvers' own noise (measured:
+                # 0.81 capture units between two default-accuracy poisson fits of the same
+                # out-of-gamut row at capture ~90, 0.21 for a gaussian fit under -W error).  A
+                # batching defect does not go away with solver accuracy: the mismatch is
+                # attributed only if it persists when reference and execution are both
+                # repeated with the high-accuracy settings (compared at their tolerance).
+                if plan["cfg"] != "default" or proc not in HA_KW or \
+                        v_def.cls != "row_depends_on_other_rows":
+                    raise
+                ha = dict(HA_KW[proc])
+                r_ref = call(run_fit, plan, est, list(range(n_u)), 1, l1_all, ha)
+                r_ex = call(run_fit, plan, est, seq, ex["bs"], l1_all, ha, ex.get("layout", "C"),
+                            bool(ex.get("keep")) and plan["W"] is None)
+                if not (r_ref.ok and r_ex.ok):
+                    raise
+                Bref_h = np.asarray(r_ref.value[1])
+                B_h = np.asarray(r_ex.value[1])
+                if B_h.shape[0] != len(seq) or max(
+                        float(np.max(np.abs(B_h[r] - Bref_h[i]))) for r, i in enumerate(seq)) > 4e-3:
+                    raise
+                bump("default_accuracy_mismatch_not_confirmed_at_high_accuracy:" + proc)
 
         def _check_rows(X, B, seq, ex, what, tauB, tauX):
             if X.shape != (len(seq), n_src) or B.shape != (len(seq), A.shape[0]):
@@ -611,31 +634,8 @@ def execute(plan):
                 continue
             if grade == "inaccurate":
                 bump("execution_solver_status_inaccurate:" + proc)
-            try:
-                check_rows(X, B, seq, ex, "clean execution" if not fault else
-                           "execution after an aborted call", coarse=(grade == "inaccurate"))
-            except Violation as v_def:
-                # At default solver accuracy a mismatch can be the solvers' own noise (measured:
-                # 0.81 capture units between two default-accuracy poisson fits of the same
-                # out-of-gamut row at capture ~90, where the likelihood is flat).  A batching
-                # defect does not go away with solver accuracy: the mismatch is attributed only
-                # if it persists when reference and execution are both repeated with the
-                # high-accuracy settings (and compared at the high-accuracy tolerance).
-                if plan["cfg"] != "default" or proc not in HA_KW or v_def.cls != \
-                        "row_depends_on_other_rows":
-                    raise
-                ha = dict(HA_KW[proc])
-                r_ref = call(run_fit, plan, est, list(range(n_u)), 1, l1_all, ha)
-                r_ex = call(run_fit, plan, est, seq, bs, l1_all, ha, ex.get("layout", "C"),
-                            bool(ex.get("keep")) and plan["W"] is None)
-                if not (r_ref.ok and r_ex.ok):
-                    raise
-                Bref_h = np.asarray(r_ref.value[1])
-                B_h = np.asarray(r_ex.value[1])
-                worst_h = max(float(np.max(np.abs(B_h[r] - Bref_h[i]))) for r, i in enumerate(seq))
-                if worst_h > 4e-3:
-                    raise
-                bump("default_accuracy_mismatch_not_confirmed_at_high_accuracy:" + proc)
+            check_rows(X, B, seq, ex, "clean execution" if not fault else
+                       "execution after an aborted call", coarse=(grade == "inaccurate"))
             nontriv = n >= 2 and (bs != 1 or seq != list(range(n)))
             if nontriv:
                 cov.append((proc, n, bc, tuple(ex["kinds"]), plan["W"] is not None,
